@@ -482,6 +482,12 @@ def sort_key_orders_by_name(ctx, fi, loop_node):
                   if t.op == 'method' and isinstance(t.args[1], str) and
                   t.args[1] in NON_INJECTIVE_STR_METHODS} |
                  {t.op for t in T.subterms(res) if t.op == 'len'})
+    if isinstance(res, Sym) and res.op == 'slice' and res.args[0] is name \
+            or (isinstance(res, Sym) and res.op == 'slice' and
+                res.args[0] == name):
+        # a prefix (or any slice) of the name: names that differ only
+        # outside it tie
+        bad = bad + ['a slice of the name']
     if bad:
         return False, 'key(item) = %s: distinct names can compare equal ' \
             '(%s), so ties keep insertion order and the order is not ' \
